@@ -197,7 +197,10 @@ def settle (old : St) (v' : T) (regs : List T) (A : List Nat) (f : Nat) (log : L
     match pre.find? (·.1 == e.1) with
     | some (_, false, _, ks) => ks.length != e.2.length && allIds.count e.1 > 1
     | _ => false
-  if exotic then none else
+  -- a store of a value that contains the written cell closes a cycle (`observe` would unfold it `fuel` deep,
+  -- exponentially when the value is duplicated)
+  let cyclicStore := log.any fun e => (idsK e.2).contains e.1
+  if exotic || cyclicStore then none else
   let obs := fun t => observe log fuel t
   let st : St := { v := obs v', regs := regs.map obs, A := A, f := f }
   if st.roots.any (fun t => depth t ≥ fuel - 2) then none else
